@@ -157,6 +157,15 @@ type translator struct {
 	roots   bool
 	frames  []trFrame
 	mapInit map[string]bool // map-valued paths known to hold a non-nil map (see mapPath)
+	// group Agg only (translate_agg.go): nil in every other group
+	agg *aggState
+	// group Web only (translate_web.go): runs on the statement translator of group Roots (roots is set too)
+	web    bool
+	webW   *types.Var              // the object the world `wld` stands for in scopes and assigned-sets
+	webTop map[*ast.CallExpr]bool  // calls in statement position (the only place a call with an effect may stand)
+	webNil map[*ast.Ident]types.Type // the type an untyped `nil` takes from its context
+	// group Func only (translate_func.go): Go `int` is Lean `Int`, `error` is a value (GoErr)
+	fi bool
 }
 
 func (t *translator) fail(n ast.Node, f string, a ...interface{}) {
@@ -170,11 +179,17 @@ func (t *translator) ind() string { return strings.Repeat("  ", t.depth+1) }
 
 // leanType maps a Go type to the Lean type of the model.
 func (t *translator) leanType(n ast.Node, ty types.Type) string {
+	if r, ok := t.aggType(n, ty); ok {
+		return r
+	}
 	switch x := ty.(type) {
 	case *types.Pointer:
 		return t.leanType(n, x.Elem())
 	case *types.Named:
 		if r, ok := t.uiNamedType(n, x); ok {
+			return r
+		}
+		if r, ok := t.fiNamedType(n, x); ok {
 			return r
 		}
 		switch x.Obj().Name() {
@@ -198,6 +213,9 @@ func (t *translator) leanType(n ast.Node, ty types.Type) string {
 			return t.leanType(n, m) // gomodCache
 		}
 	case *types.Basic:
+		if r, ok := t.fiBasic(n, x); ok {
+			return r
+		}
 		switch {
 		case x.Info()&types.IsBoolean != 0:
 			return "Bool"
@@ -205,6 +223,11 @@ func (t *translator) leanType(n ast.Node, ty types.Type) string {
 			return "UInt8"
 		case x.Kind() == types.UntypedNil:
 			return "_"
+		case t.web && x.Info()&types.IsInteger != 0:
+			// group Web: int is Int, no other integer type (translate_web.go)
+			if x.Kind() == types.Int || x.Kind() == types.UntypedInt {
+				return "Int"
+			}
 		case x.Info()&types.IsInteger != 0:
 			return "Nat"
 		case x.Info()&types.IsString != 0:
@@ -328,6 +351,16 @@ type trImpure struct{}
 func (t *translator) pureExpr(e ast.Expr) string {
 	if t.roots {
 		t.rootsConstGuard(e)
+	}
+	if t.web {
+		if s, ok := t.webPure(e); ok {
+			return s
+		}
+	}
+	if t.fi {
+		if s, ok := t.fiPure(e); ok {
+			return s
+		}
 	}
 	if tv, ok := t.p.info.Types[e]; ok && tv.Value != nil {
 		switch tv.Value.Kind() {
@@ -488,7 +521,13 @@ func (t *translator) builtinCall(x *ast.CallExpr, sub func(ast.Expr) string) (st
 		}
 		return constant.StringVal(tv.Value), true
 	}
+	if s, ok := t.aggBuiltin(name, x, sub); ok {
+		return s, true
+	}
 	if s, ok := t.uiBuiltin(name, x, sub); ok {
+		return s, true
+	}
+	if s, ok := t.fiBuiltin(name, x, sub); ok {
 		return s, true
 	}
 	switch name {
@@ -616,6 +655,9 @@ func (t *translator) builtinCall(x *ast.CallExpr, sub func(ast.Expr) string) (st
 }
 
 func (t *translator) composite(x *ast.CompositeLit, sub func(ast.Expr) string) string {
+	if s, ok := t.aggComposite(x, sub); ok {
+		return s
+	}
 	ty := t.typeOf(x)
 	if _, ok := ty.Underlying().(*types.Map); ok && t.roots {
 		// map[K]V{} / gomodCache{}: a fresh, empty map
@@ -654,6 +696,9 @@ func (t *translator) composite(x *ast.CompositeLit, sub func(ast.Expr) string) s
 }
 
 func (t *translator) binop(x *ast.BinaryExpr, a, b string) string {
+	if t.fi {
+		t.fiBinopGuard(x)
+	}
 	isStr := false
 	if bt, ok := t.typeOf(x.X).Underlying().(*types.Basic); ok && bt.Info()&types.IsString != 0 {
 		isStr = true
@@ -707,8 +752,18 @@ func (t *translator) bind(e ast.Expr, k func(string) string) string {
 	if s, ok := t.pure(e); ok {
 		return k(s)
 	}
+	if t.web {
+		if s, ok := t.webBind(e, k); ok {
+			return s
+		}
+	}
 	if t.roots {
 		if s, ok := t.bindRoots(e, k); ok {
+			return s
+		}
+	}
+	if t.fi {
+		if s, ok := t.bindFi(e, k); ok {
 			return s
 		}
 	}
@@ -944,6 +999,10 @@ func (t *translator) boolM(e ast.Expr) string {
 // indexCall recognises strings/bytes.Index, IndexByte, LastIndexByte: the searches whose result
 // (-1 when absent) the translation represents as an Option.
 func (t *translator) indexCall(e ast.Expr) (string, *ast.CallExpr, bool) {
+	if t.fi {
+		// group Func: the result of a search is an Int like any other (-1 when absent), not an Option
+		return "", nil, false
+	}
 	call, ok := e.(*ast.CallExpr)
 	if !ok || len(call.Args) != 2 {
 		return "", nil, false
@@ -1048,7 +1107,7 @@ func hasReturn(n ast.Node) bool {
 
 // assigned returns the in-scope locals (declared outside n) that n assigns to.
 func (t *translator) assigned(n ast.Node, outer []trLocal) []trLocal {
-	if t.roots {
+	if t.roots || t.fi {
 		return t.assignedObj(n, outer)
 	}
 	set := map[string]bool{}
@@ -1168,7 +1227,7 @@ func unpack(vs []trLocal, st string, ind string) string {
 type trEnd func() string
 
 func (t *translator) wrapRet(v string) string {
-	if t.roots {
+	if t.roots || t.fi {
 		return t.jumpRet(v)
 	}
 	if t.recvMut != "" {
@@ -1217,10 +1276,23 @@ func (t *translator) stmts(list []ast.Stmt, end trEnd) string {
 	}
 	s, rest := list[0], list[1:]
 	cont := func() string { return t.stmts(rest, end) }
+	if t.web {
+		if r, ok := t.webStmt(s, rest, end); ok {
+			return r
+		}
+	}
 	switch x := s.(type) {
 	case *ast.BlockStmt:
 		return t.stmts(append(append([]ast.Stmt{}, x.List...), rest...), end)
 	case *ast.ExprStmt:
+		if s, ok := t.aggExprStmt(x, rest, end); ok {
+			return s
+		}
+		if t.fi {
+			if s, ok := t.fiExprStmt(x, cont); ok {
+				return s
+			}
+		}
 		// log.Printf(…): what the library writes to the process-wide logger is outside the model
 		if c, ok := x.X.(*ast.CallExpr); ok {
 			if sel, ok := c.Fun.(*ast.SelectorExpr); ok {
@@ -1238,7 +1310,7 @@ func (t *translator) stmts(list []ast.Stmt, end trEnd) string {
 		}
 		t.fail(x, "expression statement")
 	case *ast.BranchStmt:
-		if t.roots {
+		if t.roots || t.fi {
 			return t.branchRoots(x)
 		}
 		t.fail(x, "unsupported statement %T", s)
@@ -1268,6 +1340,12 @@ func (t *translator) stmts(list []ast.Stmt, end trEnd) string {
 		if s, ok := t.uiVarDecl(x, cont); ok {
 			return s
 		}
+		if s, ok := t.aggDeclStmt(x, cont); ok {
+			return s
+		}
+		if s, ok := t.fiVarDecl(x, cont); ok {
+			return s
+		}
 		t.fail(x, "declaration statement")
 	case *ast.IncDecStmt:
 		op := token.ADD
@@ -1280,8 +1358,16 @@ func (t *translator) stmts(list []ast.Stmt, end trEnd) string {
 		t.p.info.Types[rhs] = types.TypeAndValue{Type: t.typeOf(x.X)}
 		return t.assign(x, x.X, rhs, cont)
 	case *ast.AssignStmt:
+		if s, ok := t.aggAssign(x, rest, end); ok {
+			return s
+		}
 		if t.roots {
 			if s, ok := t.assignRoots(x, rest, end); ok {
+				return s
+			}
+		}
+		if t.fi {
+			if s, ok := t.assignFi(x, cont); ok {
 				return s
 			}
 		}
@@ -1455,7 +1541,7 @@ func (t *translator) stmts(list []ast.Stmt, end trEnd) string {
 			y.Init = nil
 			return t.stmts(append([]ast.Stmt{x.Init, &y}, rest...), end)
 		}
-		if t.roots {
+		if t.roots || t.fi {
 			if s, ok := t.ifRoots(x, rest, end); ok {
 				return s
 			}
@@ -1654,6 +1740,9 @@ func (t *translator) stmts(list []ast.Stmt, end trEnd) string {
 		fmt.Fprintf(&sb, "\n%s  %s", t.ind(), body)
 		return sb.String()
 	case *ast.RangeStmt:
+		if s, ok := t.aggRangeStmt(x, cont); ok {
+			return s
+		}
 		if t.roots {
 			if x.Tok != token.DEFINE {
 				t.fail(x, "range that assigns to existing variables")
@@ -1664,6 +1753,9 @@ func (t *translator) stmts(list []ast.Stmt, end trEnd) string {
 	case *ast.ForStmt:
 		if t.roots {
 			return t.forRoots(x, cont)
+		}
+		if t.fi {
+			return t.fiFor(x, cont)
 		}
 		// for i := a; i < b; i++ { … }
 		as, ok1 := x.Init.(*ast.AssignStmt)
@@ -1939,11 +2031,18 @@ func (p *pkgInfo) translateRoots() string {
 		[]string{"isFile : Bytes → Bool", "readFile : Bytes → Option Bytes"})
 }
 
+// translateAgg (group Agg, (*Snapshot).Aggregate) is in translate_agg.go
+
+func (p *pkgInfo) translateFunc() string {
+	return p.translateGroup("PP.TrF", "stack/stack.go, stack/context.go", trFuncsFunc, false, []string{"PP.Go.PreludeFunc"}, fiOracles)
+}
+
 func (p *pkgInfo) translateGroup(ns, from string, trFuncs [][2]string, withClosure bool, imports, oracles []string) string {
 	funcs := map[string]bool{}
 	for _, f := range trFuncs {
 		funcs[trName(f[0], f[1])] = true
 	}
+	aggExternFuncs(ns, funcs)
 	// which methods assign through their pointer receiver, directly or by calling one that does on a
 	// path rooted in the receiver (fixpoint)
 	mutating := map[string]bool{}
@@ -2010,6 +2109,9 @@ func (p *pkgInfo) translateGroup(ns, from string, trFuncs [][2]string, withClosu
 			}
 		}
 	}
+	if ns == "PP.TrF" {
+		p.fiGroupSetup(trFuncs, funcs, mutating)
+	}
 	var sb strings.Builder
 	fmt.Fprintf(&sb, "/- GENERATED by /verif/extract (translate.go) from %s — do not edit. -/\nimport PP.Go.Prelude\nimport PP.Model.Aggregate\nimport PP.Model.Roots\n%sset_option linter.unusedVariables false\nnamespace %s\nopen PP PP.Go%s\n\n", from, func() string {
 		r := ""
@@ -2039,6 +2141,9 @@ func (p *pkgInfo) translateGroup(ns, from string, trFuncs [][2]string, withClosu
 		}
 		t := &translator{p: p, fn: name, funcs: funcs, mutating: mutating}
 		t.roots = ns == "PP.TrR"
+		t.aggInit(ns, fd)
+		t.webInit(ns)
+		t.fi = ns == "PP.TrF"
 		func() {
 			defer func() {
 				if r := recover(); r != nil {
@@ -2066,13 +2171,22 @@ func (p *pkgInfo) translateGroup(ns, from string, trFuncs [][2]string, withClosu
 					}
 				}
 			}
+			if t.web {
+				t.params, ptypes = append(t.params, t.webWorldParam()), append(ptypes, "World")
+			}
 			add(fd.Recv)
 			add(fd.Type.Params)
+			if t.web {
+				t.webSetup(fd)
+			}
 			if t.roots {
 				t.rootsPrepass(fd)
 			}
+			if t.fi {
+				t.fiPrepass(fd)
+			}
 			if fd.Type.Results == nil || len(fd.Type.Results.List) == 0 {
-				if !mutating[name] {
+				if !mutating[name] && !t.web {
 					t.fail(fd, "function without result that does not assign through its receiver")
 				}
 				t.void = true
@@ -2097,10 +2211,13 @@ func (p *pkgInfo) translateGroup(ns, from string, trFuncs [][2]string, withClosu
 			}
 			// a pointer receiver the body assigns through becomes a threaded local, returned with the result
 			if mutating[name] {
-				rn := fd.Recv.List[0].Names[0].Name
+				rn := fiMutName(fd)
 				t.recvMut = lid(rn)
 				t.scope = append(t.scope, trLocal{lid(rn), t.params[0].typ, t.params[0].obj})
 				t.ret = "(" + t.params[0].typ + " × " + t.ret + ")"
+			}
+			if t.web {
+				t.webRet()
 			}
 			t.body = fd.Body
 			t.submatch = map[types.Object]bool{}
@@ -2123,6 +2240,7 @@ func (p *pkgInfo) translateGroup(ns, from string, trFuncs [][2]string, withClosu
 				t.fail(fd, "function can fall off its end")
 				return ""
 			})
+			body = t.aggBodyPrefix(body)
 			var bind []string
 			for _, pr := range t.params {
 				bind = append(bind, fmt.Sprintf("(%s : %s)", pr.name, pr.typ))
@@ -2507,6 +2625,10 @@ func (t *translator) assignedSet(n ast.Node) map[types.Object]bool {
 		}
 		return true
 	})
+	t.aggAssignedExtra(n, set)
+	if t.web {
+		t.webAssigned(n, set)
+	}
 	return set
 }
 
@@ -3208,6 +3330,13 @@ func (t *translator) loopRoots(n ast.Node, rangeX ast.Expr, key, val ast.Expr, b
 
 // rootsPrepass: what is checked once per function of group Roots
 func (t *translator) rootsPrepass(fd *ast.FuncDecl) {
+	if t.agg != nil {
+		t.aggPrepass(fd)
+		return
+	}
+	if t.web {
+		return // group Web has its own (webPrepass): ints are Int, *stack.Snapshot is opaque
+	}
 	known := map[string]bool{"Goroutines": true, "LocalGOROOT": true, "LocalGOPATHs": true, "RemoteGOROOT": true,
 		"RemoteGOPATHs": true, "LocalGomods": true}
 	ast.Inspect(fd.Body, func(n ast.Node) bool {
